@@ -1,40 +1,108 @@
 /-
 C01 — in every reachable state the rolling window represents the ghost call log.
+First for a bare `RollingWindow` of ANY size `n ≥ 1` and interval `d ≥ 1` under arbitrary histories of `Add`s and
+time gaps (`WSys`), then for the breaker's instance (n = 40, d = 250 ms) under the breaker's own histories.
 -/
 import GoZero.C01.Run
 import GoZero.C01.Window
 namespace GoZero.C01
 
 /-- what the calls logged so far put into the aligned bucket number `j` (bucket `j` covers
-`[t0 + j·250ms, t0 + (j+1)·250ms)`, `t0` = creation time of the breaker) -/
-def logBucket (t0 : Nat) : List (Nat × Mark) → Nat → Bucket
+`[t0 + j·d, t0 + (j+1)·d)`, `t0` = creation time of the window) -/
+def logBucketD (d t0 : Nat) : List (Nat × Mark) → Nat → Bucket
   | [], _ => {}
-  | e :: rest, j => if bucketIdx t0 e.1 = j then (logBucket t0 rest j).add e.2 else logBucket t0 rest j
+  | e :: rest, j => if bucketIdxD d t0 e.1 = j then (logBucketD d t0 rest j).add e.2 else logBucketD d t0 rest j
 
-theorem logBucket_cons (t0 : Nat) (t : Nat) (m : Mark) (log : List (Nat × Mark)) :
-    logBucket t0 ((t, m) :: log) = recordAt (logBucket t0 log) (bucketIdx t0 t) m := by
+/-- the breaker's instance: 250 ms buckets -/
+def logBucket (t0 : Nat) : List (Nat × Mark) → Nat → Bucket := logBucketD intervalNs t0
+
+theorem logBucketD_cons (d t0 : Nat) (t : Nat) (m : Mark) (log : List (Nat × Mark)) :
+    logBucketD d t0 ((t, m) :: log) = recordAt (logBucketD d t0 log) (bucketIdxD d t0 t) m := by
   funext j
-  simp only [logBucket, recordAt]
-  by_cases h : bucketIdx t0 t = j
+  simp only [logBucketD, recordAt]
+  by_cases h : bucketIdxD d t0 t = j
   · simp [h]
-  · have : ¬ j = bucketIdx t0 t := fun e => h e.symm
+  · have : ¬ j = bucketIdxD d t0 t := fun e => h e.symm
     simp [h, this]
 
+/-- the index of the bucket that contains `now`, from the aligned `lastTime` -/
+theorem idx_eq (d t0 cur lt now : Nat) (hd : 0 < d) (hlt : lt = t0 + cur * d) (hle : lt ≤ now) :
+    bucketIdxD d t0 now = cur + (now - lt) / d := by
+  unfold bucketIdxD
+  have e : now - t0 = (now - lt) + cur * d := by omega
+  rw [e, Nat.add_mul_div_right _ _ hd, Nat.add_comm]
+
+/-- window invariant, any geometry -/
+def WinInvG (n d t0 : Nat) (w : RW) (now : Nat) (log : List (Nat × Mark)) : Prop :=
+  ∃ cur, Rep n d w t0 cur (logBucketD d t0 log) ∧ w.lastTime ≤ now ∧ t0 ≤ now
+
+theorem winInvG_init (n d : Nat) (hn : 0 < n) (hd : 0 < d) (t0 : Nat) : WinInvG n d t0 (RW.init n d t0) t0 [] :=
+  ⟨0, by simpa [logBucketD] using rep_init n d hn hd t0, by simp [RW.init], Nat.le_refl _⟩
+
+theorem add_inv (n d t0 : Nat) (w : RW) (now : Nat) (log : List (Nat × Mark)) (m : Mark)
+    (h : WinInvG n d t0 w now log) : WinInvG n d t0 (w.add now m) now ((now, m) :: log) := by
+  obtain ⟨cur, hr, hl, ht⟩ := h
+  have hr' := add_rep n d w t0 cur _ hr now m hl
+  have hidx := idx_eq d t0 cur w.lastTime now hr.dpos hr.lt hl
+  refine ⟨cur + (now - w.lastTime) / d, ?_, ?_, ht⟩
+  · rw [logBucketD_cons, hidx]; exact hr'
+  · have h1 := hr'.lt
+    have h2 := hr.lt
+    have hdm : d * ((now - w.lastTime) / d) + (now - w.lastTime) % d = now - w.lastTime := Nat.div_add_mod _ _
+    have e1 : (cur + (now - w.lastTime) / d) * d = cur * d + d * ((now - w.lastTime) / d) := by
+      rw [Nat.add_mul, Nat.mul_comm ((now - w.lastTime) / d) d]
+    omega
+
+theorem visible_of_inv (n d t0 : Nat) (w : RW) (tnow : Nat) (log : List (Nat × Mark))
+    (h : WinInvG n d t0 w tnow log) (now : Nat) (hnow : tnow ≤ now) :
+    w.visible now =
+      (List.range (n - w.span now)).map fun i => Lget (logBucketD d t0 log) (bucketIdxD d t0 now) (n - 1 - i) := by
+  obtain ⟨cur, hr, hl, ht⟩ := h
+  have hv := visible_spec n d w t0 cur _ hr now (Nat.le_trans hl hnow)
+  rw [hv, idx_eq d t0 cur w.lastTime now hr.dpos hr.lt (Nat.le_trans hl hnow)]
+
+/-! ### histories of a bare rolling window -/
+
+inductive WOp
+  | tick (dt : Nat)       -- time passes
+  | add (m : Mark)        -- `Add(v)` at the current time
+
+structure WSys where
+  w : RW
+  now : Nat
+  log : List (Nat × Mark)   -- ghost: every `Add` with its time, newest first
+
+def WSys.init (n d t0 : Nat) : WSys := { w := RW.init n d t0, now := t0, log := [] }
+
+def WSys.step (s : WSys) : WOp → WSys
+  | .tick dt => { s with now := s.now + dt }
+  | .add m => { s with w := s.w.add s.now m, log := (s.now, m) :: s.log }
+
+def WSys.run (s : WSys) (ops : List WOp) : WSys := ops.foldl WSys.step s
+
+theorem WSys.inv_run (n d : Nat) (hn : 0 < n) (hd : 0 < d) (t0 : Nat) (ops : List WOp) :
+    WinInvG n d t0 ((WSys.init n d t0).run ops).w ((WSys.init n d t0).run ops).now ((WSys.init n d t0).run ops).log := by
+  have : ∀ s : WSys, WinInvG n d t0 s.w s.now s.log → WinInvG n d t0 (s.run ops).w (s.run ops).now (s.run ops).log := by
+    induction ops with
+    | nil => intro s h; exact h
+    | cons op ops ih =>
+      intro s h
+      apply ih
+      cases op with
+      | tick dt =>
+        obtain ⟨cur, hr, hl, ht⟩ := h
+        exact ⟨cur, hr, by simp [WSys.step]; omega, by simp [WSys.step]; omega⟩
+      | add m => exact add_inv n d t0 s.w s.now s.log m h
+  exact this _ (winInvG_init n d hn hd t0)
+
+/-! ### the breaker's window -/
+
 def WinInv (t0 : Nat) (b : Breaker) (now : Nat) (log : List (Nat × Mark)) : Prop :=
-  ∃ cur, Rep b.rw t0 cur (logBucket t0 log) ∧ b.rw.lastTime ≤ now ∧ t0 ≤ now
+  WinInvG nBuckets intervalNs t0 b.rw now log
 
 theorem mark_inv (t0 : Nat) (b : Breaker) (now : Nat) (log : List (Nat × Mark)) (m : Mark)
-    (h : WinInv t0 b now log) : WinInv t0 (b.mark now m) now ((now, m) :: log) := by
-  obtain ⟨cur, hr, hl, ht⟩ := h
-  have hr' := add_rep b.rw t0 cur _ hr now m hl
-  have hlt := hr.lt
-  have hidx : bucketIdx t0 now = cur + (now - b.rw.lastTime) / 250000000 := by
-    unfold bucketIdx intervalNs; omega
-  refine ⟨cur + (now - b.rw.lastTime) / 250000000, ?_, ?_, ht⟩
-  · rw [logBucket_cons, hidx]; exact hr'
-  · have := hr'.lt
-    simp only [Breaker.mark]
-    omega
+    (h : WinInv t0 b now log) : WinInv t0 (b.mark now m) now ((now, m) :: log) :=
+  add_inv nBuckets intervalNs t0 b.rw now log m h
 
 theorem applyMarks_inv (t0 : Nat) (now : Nat) (ms : List Mark) (b : Breaker) (log : List (Nat × Mark))
     (h : WinInv t0 b now log) :
@@ -76,6 +144,6 @@ theorem Sys.winInv_run (t0 : Nat) (ops : List Op) :
     | nil => intro s h; exact h
     | cons op ops ih => intro s h; exact ih _ (Sys.winInv_step t0 s h op)
   apply this
-  exact ⟨0, by simpa [Sys.init, Breaker.init, logBucket] using rep_init t0, by simp [Sys.init, Breaker.init, RW.init], by simp [Sys.init]⟩
+  exact winInvG_init nBuckets intervalNs (by decide) (by decide) t0
 
 end GoZero.C01
